@@ -18,6 +18,10 @@ class Table:
         self.wild = None          # block where all keys mismatched
         self.join = None          # block after the match (is_empty test)
         self.out_local = None
+        self.form = "direct"      # or "closure": the key match lives in a closure called from parse()
+        self.parent = None        # parse() body when form == "closure"
+        self.capture_fields = {}  # closure capture index -> attr field name
+        self.closure_call = None  # block in parent calling the closure
 
 
 def parse_bodies(crate):
@@ -36,15 +40,51 @@ def parse_bodies(crate):
 
 def extract(crate):
     tables = {}
-    for name, b in parse_bodies(crate).items():
+    for name, pb in parse_bodies(crate).items():
+        b = pb
+        has_eq = lambda x: any(fn_matches(tt, r"impl std::cmp::PartialEq for str>::eq$") for _, tt in x.calls())
+        form = "direct"
+        if not has_eq(pb):
+            for cb in crate.bodies:
+                if cb.path.startswith(pb.path + "::{closure") and has_eq(cb):
+                    b, form = cb, "closure"
+                    break
         t = Table(name, b)
+        t.form = form
+        t.parent = pb if form == "closure" else None
         for i, l in enumerate(b.locals):
             if l["name"] == "out":
                 t.out_local = i
-        # join block: the block whose terminator calls ParseBuffer::is_empty
-        for blk, term in b.calls():
-            if fn_matches(term, r"ParseBuffer::<'_>::is_empty$", r"ParseBuffer::is_empty$") and not b.is_cleanup(blk):
-                t.join = blk
+        if form == "direct":
+            # join block: the block whose terminator calls ParseBuffer::is_empty
+            for blk, term in b.calls():
+                if fn_matches(term, r"ParseBuffer::<'_>::is_empty$", r"ParseBuffer::is_empty$") and not b.is_cleanup(blk):
+                    t.join = blk
+        else:
+            # join: the block that builds Ok(true)
+            for blk in range(b.n):
+                for st in b.stmts(blk):
+                    if st["k"] == "assign" and st["dst"]["l"] == 0 and st["rv"]["k"] == "agg" and st["rv"].get("variant") == "Ok":
+                        c = op_const(st["rv"]["ops"][0]) if st["rv"]["ops"] else None
+                        if c and c.get("int") == 1:
+                            t.join = blk
+            # capture index -> field, from the closure aggregate in parse()
+            for blk in range(pb.n):
+                for st in pb.stmts(blk):
+                    if st["k"] == "assign" and st["rv"]["k"] == "agg" and st["rv"].get("closure") == b.path:
+                        for idx, o in enumerate(st["rv"]["ops"]):
+                            l0 = op_local(o)
+                            if l0 is None:
+                                continue
+                            for db, i, d in M.def_sites(pb, l0):
+                                if i != "term" and d["rv"]["k"] == "ref":
+                                    named = [p for p in d["rv"]["pl"]["p"] if p.startswith(".") and not p[1:].isdigit()]
+                                    if named:
+                                        t.capture_fields[idx] = named[-1]
+            for blk, term in pb.calls():
+                f = term.get("fn") or {}
+                if (f.get("path") == b.path or f.get("res") == b.path) and not pb.is_cleanup(blk):
+                    t.closure_call = blk
         eqs = []
         for blk, term in b.calls():
             if b.is_cleanup(blk):
@@ -74,8 +114,21 @@ def extract(crate):
             parsers, fields, eq_tokens, peeks = [], [], 0, 0
             for x in sorted(region):
                 for st in b.stmts(x):
-                    if st["k"] == "assign" and st["dst"]["l"] == t.out_local and st["dst"]["p"]:
+                    if st["k"] == "assign" and t.form == "direct" and st["dst"]["l"] == t.out_local and st["dst"]["p"]:
                         fields.append("".join(p for p in st["dst"]["p"] if p != ".0"))
+                    elif st["k"] == "assign" and t.form == "closure" and st["dst"]["p"]:
+                        pl = st["dst"]
+                        if pl["l"] != 1:
+                            # `(*_t) = ..` where `_t = copy (*_1).N` (deref temp)
+                            ds = M.def_sites(b, pl["l"])
+                            if len(ds) == 1 and ds[0][1] != "term" and ds[0][2]["rv"]["k"] == "use":
+                                src = M.op_place(ds[0][2]["rv"]["op"])
+                                if src and src["l"] == 1:
+                                    pl = src
+                        if pl["l"] == 1:
+                            idx = [p for p in pl["p"] if p.startswith(".") and p[1:].isdigit()]
+                            if idx and int(idx[0][1:]) in t.capture_fields:
+                                fields.append(t.capture_fields[int(idx[0][1:])])
                 term = b.term(x)
                 if term["k"] == "call":
                     f = term.get("fn") or {}
@@ -149,3 +202,96 @@ def wildcard_summary(table):
                 err_exit = True
     returns = any(b.term(x)["k"] == "return" for x in b.reachable_from([table.wild], stop=lambda x: x in stop))
     return {"reaches_join": reaches_join, "err_exit": err_exit, "calls": calls, "region": region, "returns_before_join": returns}
+
+
+def closure_fallback(table):
+    """closure form: what parse() does with the closure's result.
+    Returns dict(no_error_exit, skip_on_every_non_true_path, has_success_path)."""
+    pb = table.parent
+    if pb is None or table.closure_call is None:
+        return None
+    call = pb.term(table.closure_call)
+    res = call["dst"]["l"]
+    join = None
+    for blk, term in pb.calls():
+        if fn_matches(term, r"ParseBuffer::<'_>::is_empty$", r"ParseBuffer::is_empty$") and not pb.is_cleanup(blk):
+            join = blk
+    if join is None:
+        return None
+    start = call["target"]
+    region = pb.reachable_from([start], stop=lambda x: x == join)
+    region = {x for x in region if not pb.is_cleanup(x)}
+    err_exit = False
+    for x in region - {join}:
+        if pb.term(x)["k"] == "return":
+            err_exit = True
+        for st in pb.stmts(x):
+            if st["k"] == "assign" and st["dst"]["l"] == 0 and st["rv"]["k"] == "agg" and st["rv"].get("variant") == "Err":
+                err_exit = True
+        tt = pb.term(x)
+        if tt["k"] == "call" and fn_matches(tt, r"FromResidual") and tt["dst"]["l"] == 0:
+            err_exit = True
+    skips = {x for x in region if pb.term(x)["k"] == "call" and fn_matches(pb.term(x), r"attr::skip_until_next_comma$")}
+    # path-sensitive walk: track boolean temporaries assigned constants (the lowering of `matches!`)
+    # and whether the Ok(true) edge / a skip call was passed
+    seen = set()
+    work = [(start, frozenset(), False, False)]
+    outcomes = set()   # (ok_true, skipped) at the join
+    steps = 0
+    while work and steps < 20000:
+        steps += 1
+        blk, env, ok_true, skipped = work.pop()
+        key = (blk, env, ok_true, skipped)
+        if key in seen:
+            continue
+        seen.add(key)
+        if blk == join:
+            outcomes.add((ok_true, skipped))
+            continue
+        if pb.is_cleanup(blk):
+            continue
+        e = dict(env)
+        for st in pb.stmts(blk):
+            if st["k"] == "assign" and not st["dst"]["p"]:
+                l0 = st["dst"]["l"]
+                if st["rv"]["k"] == "use":
+                    c = op_const(st["rv"]["op"])
+                    if c is not None and "int" in c and c.get("ty") == "bool":
+                        e[l0] = c["int"]
+                        continue
+                    src = M.op_place(st["rv"]["op"])
+                    if src and not src["p"] and src["l"] in e:
+                        e[l0] = e[src["l"]]
+                        continue
+                elif st["rv"]["k"] == "unop" and st["rv"]["op"] == "Not":
+                    src = M.op_place(st["rv"]["a"])
+                    if src and not src["p"] and src["l"] in e:
+                        e[l0] = 1 - e[src["l"]]
+                        continue
+                e.pop(l0, None)
+        tt = pb.term(blk)
+        if blk in skips:
+            skipped = True
+        env2 = frozenset(e.items())
+        if tt["k"] == "switch":
+            pl = M.op_place(tt["discr"])
+            if pl and not pl["p"] and pl["l"] in e:
+                v = e[pl["l"]]
+                tg = None
+                for val, x in tt["targets"]:
+                    if val == v:
+                        tg = x
+                work.append((tg if tg is not None else tt["otherwise"], env2, ok_true, skipped))
+                continue
+            if pl and pl["l"] == res and any(p.startswith(".Ok::") for p in pl["p"]):
+                for val, x in tt["targets"]:
+                    work.append((x, env2, ok_true if val != 1 else True, skipped))
+                work.append((tt["otherwise"], env2, True, skipped))
+                continue
+        for x in pb.succ(blk):
+            work.append((x, env2, ok_true, skipped))
+    true_edges = {o for o in outcomes if o[0]}
+    ok = bool(outcomes) and all(sk for (okt, sk) in outcomes if not okt)
+    clean_success = bool(true_edges) and all(not sk for (okt, sk) in outcomes if okt)
+    return {"no_error_exit": not err_exit, "skip_on_every_non_true_path": ok, "has_success_path": bool(true_edges), "success_path_does_not_skip": clean_success,
+            "skip_calls": len(skips), "outcomes_at_join(ok_true,skipped)": sorted(outcomes)}
